@@ -8,6 +8,20 @@ from .ctx import Ctx, PyExc, PathEnd, exc_ancestors, EXC_PARENT
 from . import loader
 
 
+def _default_of(sort):
+    if sort == IntSort:
+        return z3.IntVal(0)
+    if sort == BoolSort:
+        return z3.BoolVal(False)
+    if sort == RealSort:
+        return z3.RealVal(0)
+    if sort == BytesSort:
+        return z3.Empty(BytesSort)
+    if sort == StrSort:
+        return z3.StringVal('')
+    return z3.Const('dflt_' + str(sort), sort)
+
+
 class _Return(Exception):
     def __init__(self, value):
         self.value = value
@@ -92,6 +106,8 @@ class State:
         self.events = []            # ghost event log
         self.ghost = {}
         self.interp = None
+        self.boxes = []             # (ref term, value) for values of kind 'box'
+        self.allocated = []         # refs allocated during this run (heapify)
 
     def read_field(self, so, name):
         key = (so.cls.name, name)
@@ -133,8 +149,25 @@ class Interp:
     def wrap(self, t, kind):
         if kind.ty == 'fn':
             return SymFn(t)
+        if kind.ty == 'seq':
+            ts, mk_, (acc_arr, acc_n) = list_sort(kind.inner.sort())
+            n = z3.simplify(acc_n(t))
+            self.ctx.assume(n >= 0)
+            return SymSeq(z3.simplify(acc_arr(t)), n, kind.inner)
+        if kind.ty == 'box':
+            for ref, val in self.state.boxes:
+                if ref.eq(t):
+                    return val
+            return Box(t)
         if kind.ty == 'obj':
-            return SymObj(t, kind.cls, self.state)
+            so = SymObj(t, kind.cls, self.state)
+            a0 = self.state.ghost.get('alloc0')
+            if a0 is not None:
+                # references held by the pre-state are older than anything allocated during the call
+                hit = any(t.eq(r) for r in self.state.allocated)
+                if not hit:
+                    self.ctx.assume(z3.And(t > 0, z3.Or(t < a0, z3.Or([t == r for r in self.state.allocated]) if self.state.allocated else False)))
+            return so
         if kind.ty == 'enum':
             return Obj(kind.cls, {'value': Sym(t, 'int')})
         return ops.concretize(Sym(t, kind.ty, kind.cls))
@@ -159,13 +192,57 @@ class Interp:
                 self.fn_refs[id(v)] = (r, v)
                 return r
             return r[0]
+        if kind.ty == 'seq':
+            ts, mk_, (acc_arr, acc_n) = list_sort(kind.inner.sort())
+            if isinstance(v, SymSeq):
+                return mk_(v.arr, v.n)
+            if isinstance(v, PyList):
+                arr = z3.K(IntSort, _default_of(kind.inner.sort()))
+                for i, x in enumerate(v.items):
+                    arr = z3.Store(arr, z3.IntVal(i), self.unwrap(x, kind.inner))
+                return mk_(arr, z3.IntVal(len(v.items)))
+            raise Unsupported('storing %r as a list value' % (v,))
+        if kind.ty == 'box':
+            if isinstance(v, Box):
+                return v.ref
+            r = self.ctx.fresh('box', IntSort)
+            for ref, val in self.state.boxes:
+                self.ctx.assume(r != ref)
+            self.state.boxes.append((r, v))
+            return r
         if kind.ty == 'obj':
             if isinstance(v, SymObj):
                 return v.ref
-            raise Unsupported('storing a non-symbolic object into a symbolic collection')
+            if isinstance(v, Obj):
+                return self.heapify(v).ref
+            raise Unsupported('storing a non-object into a symbolic collection of objects')
         if kind.ty == 'enum':
             return ops.term(v.attrs['value'], 'int')
         return ops.term(v, kind.ty if kind.ty in ('int', 'real') else None)
+
+    def heapify(self, o):
+        """move a concrete-identity object into the field maps (it is about to be stored in a symbolic container)"""
+        if o.fwd is not None:
+            return o.fwd
+        cls = o.cls
+        if cls is None:
+            raise Unsupported('cannot store a class-less object in a symbolic container')
+        st = self.state
+        a = st.ghost.get('alloc')
+        if a is None:
+            raise Unsupported('allocation of %s into a symbolic container needs an allocation ghost (E.alloc())' % cls.name)
+        ref = self.ctx.fresh('new_' + cls.name, IntSort)
+        self.ctx.assume(ref == a)
+        st.ghost['alloc'] = a + 1
+        st.allocated.append(ref)
+        so = SymObj(ref, cls, st)
+        for name, v in o.attrs.items():
+            if (cls.name, name) not in st.fields:
+                raise Unsupported('field %s.%s is not declared in the sidecar' % (cls.name, name))
+            st.write_field(so, name, v)
+        o.fwd = so
+        o.attrs = {}
+        return so
 
     # ------------------------------------------------------------------ module / name resolution
     def module_global(self, module, name):
@@ -280,6 +357,8 @@ class Interp:
     def getattr(self, v, name, frame=None):
         if hasattr(v, 'pv_getattr'):
             return v.pv_getattr(self, name)
+        if isinstance(v, Obj) and v.fwd is not None:
+            v = v.fwd
         if isinstance(v, Obj):
             if name in v.attrs:
                 return v.attrs[name]
@@ -367,6 +446,8 @@ class Interp:
         return self.lib.builtin_super_attr(self, sp, name, bases)
 
     def setattr(self, v, name, value, frame=None):
+        if isinstance(v, Obj) and v.fwd is not None:
+            v = v.fwd
         if isinstance(v, Obj):
             if v.frozen:
                 raise Unsupported('write to a frozen (snapshot) object')
